@@ -8,6 +8,7 @@ import Winter.Gen.ProofOpts
 import Winter.Gen.FriOpts
 import Winter.Gen.Degree
 import Winter.Gen.AirContext
+import Winter.Gen.TraceInfo
 
 namespace Drv.C01
 open Model.Protocol
@@ -43,9 +44,28 @@ def genCtx (n e : Nat) (o : Options) (md ad : List Degree) (gl : Glue) : String 
     ++ chk "lde_domain" (if Gen.AirContext.lde_domain_size_ok o.blowup n then toString (Gen.AirContext.lde_domain_size o.blowup n) else "panic") (toString gl.ldeDomain)
     ++ chk "trace_poly_degree" (if Gen.AirContext.trace_poly_degree_ok n then toString (Gen.AirContext.trace_poly_degree n) else "panic") (toString gl.tracePolyDegree)
 
-def genDiff (n e : Nat) (o : Options) (x : Nat) (md ad : List Degree) (r : Res Glue) : String :=
+/-- the regenerated constructors on an accepted glue line: `AirContext::new_multi_segment` (one assertion per
+    segment, no Lagrange column) must pass and store the model's `ce_blowup_factor`;
+    `set_num_transition_exemptions` must pass -/
+def genCtor (n e aw : Nat) (o : Options) (md ad : List Degree) (gl : Glue) : String :=
+  let mb := fun (d : Degree) => Gen.Degree.min_blowup_factor d.base d.cycles
+  let mbOk := fun (d : Degree) => Gen.Degree.min_blowup_factor_ok d.base d.cycles
+  let multi := Gen.TraceInfo.is_multi_segment aw
+  let naa := if 0 < aw then 1 else 0
+  let okC := Gen.AirContext.new_multi_segment_ok mb mbOk aw multi n md ad 1 naa false 0 o.blowup
+  let ce := (Gen.AirContext.new_multi_segment mb mbOk aw multi n md ad 1 naa false 0 o.blowup).1
+  let ev := fun (d : Degree) (m : Nat) => Gen.Degree.get_evaluation_degree d.base d.cycles m
+  let evOk := fun (d : Degree) (m : Nat) => Gen.Degree.get_evaluation_degree_ok d.base d.cycles m
+  let okE := Gen.AirContext.set_num_transition_exemptions_ok ev evOk ad (Gen.AirContext.ce_domain_size ce n) md 1 n e
+  (if okC then "" else " gen:new_multi_segment=panic")
+    ++ (if ce == gl.ceBlowup then "" else s!" gen:ce_blowup_factor={ce}")
+    ++ (if okE then "" else " gen:set_num_transition_exemptions=panic")
+
+def genDiff (n e mw aw nr : Nat) (o : Options) (x : Nat) (md ad : List Degree) (r : Res Glue) : String :=
   let accG := Gen.ProofOpts.new_ok o.queries o.blowup o.grinding x o.folding o.remainder
-  let d1 := if accG == o.accepted then "" else s!" gen:new_ok={boolStr accG}"
+  let tiG := Gen.TraceInfo.new_multi_segment_ok mw aw nr n []
+  let d1 := (if accG == o.accepted then "" else s!" gen:new_ok={boolStr accG}")
+    ++ (if tiG == traceInfoAccepted mw aw nr n then "" else s!" gen:trace_info_ok={boolStr tiG}")
   match r with
   | .panic => d1
   | .ok gl =>
@@ -55,6 +75,7 @@ def genDiff (n e : Nat) (o : Options) (x : Nat) (md ad : List Degree) (r : Res G
         && Gen.FriOpts.num_fri_layers_ok 64 fo.2.2 fo.1 fo.2.1 lde
       then toString (Gen.FriOpts.num_fri_layers 64 fo.2.2 fo.1 fo.2.1 lde) else "panic"
     d1 ++ (if layG == toString gl.layers then "" else s!" gen:layers={layG}") ++ genCtx n e o md ad gl
+      ++ genCtor n e aw o md ad gl
 
 /-- `q.b.g.x.f.r` -/
 def optsOf (s : String) : Option Model.Serde.ProofOptions :=
@@ -97,7 +118,7 @@ def handle (toks : List String) : String :=
         let res := glue n o e mw aw nr md ad
         (match res with
         | .ok gl => glueLine gl
-        | .panic => "panic") ++ genDiff n e o x md ad res   -- tie T: keep
+        | .panic => "panic") ++ genDiff n e mw aw nr o x md ad res   -- tie T: keep
     | _, _, _ => "bad-op"
   | _ => "bad-op"
 
